@@ -680,6 +680,8 @@ class World:
             path = self._file_of(d, cid, vid)
             if top and d.get('_top_namespace'):
                 kw['namespace'] = d['_top_namespace']
+            if top and d.get('_top_name'):
+                kw['name'] = d['_top_name']
             if c['medium'] == 'part' and not c.get('main_part_implicit'):
                 return Config(base_dir, path, part=c['part'], **kw) if c.get('via_part_arg') else Config(base_dir, f'{path}#{c["part"]}', **kw)
             return Config(base_dir, path, **kw)
